@@ -115,6 +115,7 @@ LeavesOf(fam) ==
                           Inter(<<Uni(<<Ref("Ct"), Ref("Dg")>>), Uni(<<Ref("Ct"), Obj(<<Prop("hoot", TString, FALSE)>>, <<>>)>>)>>),
                           Inter(<<Uni(<<Ref("Dg"), Ref("Ct")>>), Uni(<<Obj(<<Prop("hoot", TString, FALSE)>>, <<>>), Ref("Dg")>>)>>),
                           Uni(<<Ref("Pt"), Inter(<<Ref("Pt"), Obj(<<Prop("name", TString, FALSE)>>, <<>>)>>)>>),
+                          Ref("valueOf"), Obj(<<Prop("p", Ref("valueOf"), FALSE), Prop("q", Ref("valueOf"), TRUE)>>, <<>>),
                           Obj(<<Prop("first", Uni(<<Ref("Ct"), Ref("Dg")>>), FALSE), Prop("second", Uni(<<Ref("Dg"), Ref("Ct")>>), FALSE)>>, <<>>),
                           \* named intersection members that declare the same property with types differing only in depth
                           Inter(<<Ref("Ma"), Ref("Mb")>>), Inter(<<Ref("Mb"), Ref("Ma")>>),
@@ -191,7 +192,9 @@ PresetEnv ==
     \* named types that several members of one (not discriminated) union / intersection mention at the same position
     [n |-> "Pt",   kind |-> "type", ty |-> Obj(<<Prop("x", TNumber, FALSE), Prop("y", TNumber, FALSE)>>, <<>>)],
     [n |-> "Ct",   kind |-> "type", ty |-> Obj(<<Prop("meow", TString, FALSE)>>, <<>>)],
-    [n |-> "Dg",   kind |-> "type", ty |-> Obj(<<Prop("bark", TString, FALSE), Prop("legs", TNumber, TRUE)>>, <<>>)] >>
+    [n |-> "Dg",   kind |-> "type", ty |-> Obj(<<Prop("bark", TString, FALSE), Prop("legs", TNumber, TRUE)>>, <<>>)],
+    \* a recursive type called like a member of Object.prototype (tables keyed by type names while a traversal is under way)
+    [n |-> "valueOf", kind |-> "type", ty |-> Obj(<<Prop("v", TString, FALSE), Prop("next", Ref("valueOf"), TRUE)>>, <<>>)] >>
   ELSE <<>>
 
 \* in the describe family the second declaration takes the name describe() gives the root alias (Codec + parser key)
